@@ -30,7 +30,10 @@ REQUIRED = ["Never.C06.context_error_propagates", "Never.C06.context_never_accep
             "Never.C06.rejects_empty_main_unit", "Never.C06.rejects_nameless_function",
             "Never.C06.rejects_nameless_function_item", "Never.C06.rejects_iflet_branches",
             "Never.C06.rejects_iflet_other_enum", "Never.C06.range_bound_name_assign_accepted_counterexample",
-            "Never.C06.slice_bound_name_assign_accepted_counterexample"]
+            "Never.C06.slice_bound_name_assign_accepted_counterexample",
+            "Never.C06.rejects_ctor_arity", "Never.C06.rejects_ctor_kind", "Never.C06.rejects_ctor_of_plain_enumerator",
+            "Never.C06.rejects_guard_bind_count", "Never.C06.rejects_iflet_bind_count",
+            "Never.C06.rejects_guard_unknown_enumerator", "Never.C06.rejects_guard_other_enum"]
 
 
 def check(tier, seed):
